@@ -262,6 +262,7 @@ class Session:
         self.cases = set()       # distinct (op, lane, variant, outcome) tuples exercised
         self.ncalls = 0
         self.anomalies = []      # panics / hangs / deaths seen (for C20 attribution)
+        self.cwd = {}            # flavour -> working directory its co-process was moved to
         self.new_cache()
 
     # ------------------------------------------------------------ lifecycle
@@ -819,11 +820,20 @@ class Session:
         return sop, resp, ({"ok": True, "v": "unit"} if resp.get("ok") else None)
 
     # ---- link_to
+    def _target_path(self, st, lane):
+        """absolute path of the target, or (relative: true) the path relative to the driver's cwd"""
+        p = self.ext_path(st["target"])
+        if st.get("relative"):
+            cwd = self.cwd.get(LANES[lane][0])
+            if cwd:
+                return os.path.relpath(p, cwd)
+        return p
+
     def _do_link_to(self, st, lane):
         keyed = "key" in st
         name = self._opname(lane, "link_to_sync" if keyed else "link_to_hash_sync",
                             "link_to" if keyed else "link_to_hash")
-        tpath = st.get("target_path") or self.ext_path(st["target"])
+        tpath = self._target_path(st, lane)
         req = {"op": name, "target": tpath}
         sop = {"op": "link_to", "target": st["target"]}
         if keyed:
@@ -837,7 +847,7 @@ class Session:
 
     def _do_open_linker(self, st, lane):
         _, is_sync = LANES[lane]
-        tpath = st.get("target_path") or self.ext_path(st["target"])
+        tpath = self._target_path(st, lane)
         req = {"op": "open_linker", "sync": is_sync, "target": tpath}
         o = dict(st.get("opts") or {})
         h = "h%d" % (self.nh + 1)
@@ -997,6 +1007,27 @@ def _damage(data, st):
         return data[:off] + bytes.fromhex(st["bytes"]) + data[off:]
     if mode == "set":
         return bytes.fromhex(st["bytes"])
+    if mode in ("insert_line", "dup_line", "swap_lines", "drop_nl"):
+        lines = data.split(b"\n")
+        if mode == "insert_line":
+            i = min(st["index"], len(lines))
+            lines.insert(i, bytes.fromhex(st["bytes"]))
+        elif mode == "dup_line":
+            if len(lines) < 2:
+                return None
+            lines.append(lines[1 + st["index"] % (len(lines) - 1)])
+        elif mode == "swap_lines":
+            if len(lines) < 3:
+                return None
+            i = 1 + st["i"] % (len(lines) - 1)
+            j = 1 + st["j"] % (len(lines) - 1)
+            lines[i], lines[j] = lines[j], lines[i]
+        elif mode == "drop_nl":
+            if len(lines) < 3:
+                return None
+            i = 1 + st["index"] % (len(lines) - 2)
+            lines[i:i + 2] = [lines[i] + lines[i + 1]]
+        return b"\n".join(lines)
     raise ToolError("unknown damage mode " + mode)
 
 
@@ -1005,12 +1036,21 @@ def run_program(sess, prog, on_step=None):
     load_universe(sess.u, prog)
     alias = {}
     results = []
+    slots = {}
     for i, st0 in enumerate(prog["steps"]):
         st = dict(st0)
         op = st["op"]
         if op == "new_cache":
             sess.new_cache()
             alias = {}
+            results.append(None)
+            continue
+        if op == "chdir":
+            where = {"ext": sess.extdir, "root": sess.root, "base": os.path.dirname(sess.root), "/": "/"}[st["to"]]
+            r = sess.raw_call(st.get("lane", "S"), {"op": "chdir", "dir": where})
+            if not r.get("ok"):
+                raise ToolError("chdir failed in driver: %r" % r)
+            sess.cwd[LANES[st.get("lane", "S")][0]] = where
             results.append(None)
             continue
         if op == "env_ext":
@@ -1048,6 +1088,15 @@ def run_program(sess, prog, on_step=None):
             if mode == "remove":
                 if os.path.exists(p):
                     sess.env_set_bucket(st["key"], None)
+            elif mode == "save":
+                slots[st["slot"]] = open(p, "rb").read() if os.path.isfile(p) else None
+            elif mode == "restore":
+                if st["slot"] in slots:
+                    sess.env_set_bucket(st["key"], slots[st["slot"]])
+            elif mode == "mkdir":
+                # the bucket path is a directory (hostile on-disk state)
+                if not os.path.exists(p):
+                    os.makedirs(p)
             elif mode == "plant":
                 # a record for a (foreign) key appended to this key's bucket by the reference writer
                 e = dict(st["entry"])
